@@ -1,7 +1,346 @@
+/-
+  Driver.C08 — model driver for property C08 (core-only). One case line per stdin line:
+      <input fields>\t<what the real Go code produced>
+  answer: <Impl model output>\t<verdict>.  For every case BOTH the Impl model (Aqv.Model.EvmOps, mirrors the Go code) and the
+  Spec (Aqv.Model.EvmSpec, Yellow Paper) are evaluated; the verdict judges the Go output against the Spec:
+      go = spec, go = impl   → agree
+      go = spec, go ≠ impl   → spec-ok                     (harmless difference: broken correspondence)
+      go ≠ spec              → spec-reject:<tag>           (tag names the modelled deviation when go = impl and the operands
+                                                            lie in the operand set excluded by the `_partial` theorem)
+-/
 import Aqv.Base.Proto
-open Aqv Aqv.Proto
+import Aqv.Model.EvmOps
+import Aqv.Model.EvmSpec
+import Aqv.Model.EvmSelect
+open Aqv Aqv.Proto Aqv.Big Aqv.Evm Aqv.Gen.VmTable
 
-/-- stub driver for C08 (answers every case line with "bad-op"); replaced when the property is built. -/
-def handle (l : String) : String := let _ := l; "bad-op\tagree"
+def hexNatAux : List Char → Nat → Option Nat
+  | [], acc => some acc
+  | c :: cs, acc =>
+    match hexVal c with
+    | some v => hexNatAux cs (acc * 16 + v)
+    | none => none
+
+def hexNat (s : String) : Option Nat := if s.isEmpty then none else hexNatAux s.toList 0
+
+def natHex (n : Nat) : String := String.ofList (Nat.toDigits 16 n)
+
+def judge (impl go : String) (specAcceptsGo : Bool) (tag : String) : String :=
+  if specAcceptsGo then (if impl == go then impl ++ "\tagree" else impl ++ "\tspec-ok")
+  else impl ++ "\tspec-reject:" ++ tag
+
+def parseEpoch : String → Option Epoch
+  | "frontier" => some .frontier
+  | "homestead" => some .homestead
+  | "byzantium" => some .byzantium
+  | "constantinople" => some .constantinople
+  | "spring" => some .spring
+  | _ => none
+
+def parseGt : String → Option GasTableName
+  | "hs" => some .homestead
+  | "hf1" => some .hf1
+  | _ => none
+
+def w (n : Nat) : EvmSpec.W := BitVec.ofNat 256 n
+
+/-- Impl: op name → result, arguments in pop order -/
+def implOp (name : String) (a : List Int) : Option Int :=
+  match name, a with
+  | "ADD", [x, y] => some (opAdd x y)
+  | "SUB", [x, y] => some (opSub x y)
+  | "MUL", [x, y] => some (opMul x y)
+  | "DIV", [x, y] => some (opDiv x y)
+  | "SDIV", [x, y] => some (opSdiv x y)
+  | "MOD", [x, y] => some (opMod x y)
+  | "SMOD", [x, y] => some (opSmod x y)
+  | "ADDMOD", [x, y, z] => some (opAddmod x y z)
+  | "MULMOD", [x, y, z] => some (opMulmod x y z)
+  | "EXP", [x, y] => some (opExp x y)
+  | "SIGNEXTEND", [x, y] => some (opSignExtend x y)
+  | "LT", [x, y] => some (opLt x y)
+  | "GT", [x, y] => some (opGt x y)
+  | "SLT", [x, y] => some (opSlt x y)
+  | "SGT", [x, y] => some (opSgt x y)
+  | "EQ", [x, y] => some (opEq x y)
+  | "ISZERO", [x] => some (opIszero x)
+  | "AND", [x, y] => some (opAnd x y)
+  | "OR", [x, y] => some (opOr x y)
+  | "XOR", [x, y] => some (opXor x y)
+  | "NOT", [x] => some (opNot x)
+  | "BYTE", [x, y] => some (opByte x y)
+  | "SHL", [x, y] => some (opSHL x y)
+  | "SHR", [x, y] => some (opSHR x y)
+  | "SAR", [x, y] => some (opSAR x y)
+  | _, _ => none
+
+def specOp (name : String) (a : List EvmSpec.W) : Option EvmSpec.W :=
+  match name, a with
+  | "ADD", [x, y] => some (EvmSpec.add x y)
+  | "SUB", [x, y] => some (EvmSpec.sub x y)
+  | "MUL", [x, y] => some (EvmSpec.mul x y)
+  | "DIV", [x, y] => some (EvmSpec.div x y)
+  | "SDIV", [x, y] => some (EvmSpec.sdiv x y)
+  | "MOD", [x, y] => some (EvmSpec.mod x y)
+  | "SMOD", [x, y] => some (EvmSpec.smod x y)
+  | "ADDMOD", [x, y, z] => some (EvmSpec.addmod x y z)
+  | "MULMOD", [x, y, z] => some (EvmSpec.mulmod x y z)
+  | "EXP", [x, y] => some (EvmSpec.exp x y)
+  | "SIGNEXTEND", [x, y] => some (EvmSpec.signextend x y)
+  | "LT", [x, y] => some (EvmSpec.lt x y)
+  | "GT", [x, y] => some (EvmSpec.gt x y)
+  | "SLT", [x, y] => some (EvmSpec.slt x y)
+  | "SGT", [x, y] => some (EvmSpec.sgt x y)
+  | "EQ", [x, y] => some (EvmSpec.eq x y)
+  | "ISZERO", [x] => some (EvmSpec.iszero x)
+  | "AND", [x, y] => some (EvmSpec.and x y)
+  | "OR", [x, y] => some (EvmSpec.or x y)
+  | "XOR", [x, y] => some (EvmSpec.xor x y)
+  | "NOT", [x] => some (EvmSpec.not x)
+  | "BYTE", [x, y] => some (EvmSpec.byte x y)
+  | "SHL", [x, y] => some (EvmSpec.shl x y)
+  | "SHR", [x, y] => some (EvmSpec.shr x y)
+  | "SAR", [x, y] => some (EvmSpec.sar x y)
+  | _, _ => none
+
+def optGas : Option UInt64 → Option Nat
+  | some g => some g.toNat
+  | none => none
+
+/-- Impl gas of the single-op program `PUSH32 × arity, OP, PUSH1 0, MSTORE, PUSH1 32, PUSH1 0, RETURN`, from the generated table
+    and the gas-function models. -/
+def implProgGas (e : Epoch) (gt : GasTable) (info : OpInfo) (args : List Int) : Option Nat := do
+  let p32 ← (← lookup e 0x7f).constGas
+  let p1 ← (← lookup e 0x60).constGas
+  let opGas ←
+    match info.constGas with
+    | some g => some g
+    | none =>
+      if info.gasFn == "gasExp" then optGas (gasExp (UInt64.ofNat gt.expByte) (args.getD 1 0)) else none
+  let mstore ← optGas (gasMemVeryLow ⟨0, 0⟩ 32)
+  let ret ← optGas (gasReturn ⟨32, 3⟩ 32)
+  some (p32 * args.length + opGas + p1 + mstore + p1 + p1 + ret)
+
+def specRow (level op : Nat) : Option EvmSpec.Row := (EvmSpec.opcodeTable level).find? (fun r => r.op == op)
+
+def specProgGas (level : Nat) (expByte : Nat) (opc : Nat) (args : List Nat) : Option Nat := do
+  let row ← specRow level opc
+  let opGas ←
+    match row.gas with
+    | some g => some g
+    | none => if opc == 0x0a then some (EvmSpec.gasExp expByte (args.getD 1 0)) else none
+  -- PUSH*: W_verylow; MSTORE: W_verylow + C_mem(1) − C_mem(0); RETURN: no further expansion
+  some (3 * args.length + opGas + 3 + (3 + (EvmSpec.cmem 1 - EvmSpec.cmem 0)) + 3 + 3 + 0)
+
+def specExpByteOf : GasTableName → Nat
+  | .hf1 => 50
+  | _ => 10
+
+def caseOp (eS gtS name : String) (argS : List String) (go : String) : String :=
+  match parseEpoch eS, parseGt gtS, argS.mapM hexNat with
+  | some e, some gtn, some args =>
+    let argsI : List Int := args.map Int.ofNat
+    let info := (table e).find? (fun i => i.name == name)
+    let impl : String :=
+      match info with
+      | none => "err invalid"
+      | some info =>
+        match implOp name argsI, implProgGas e (gasTableOf gtn) info argsI with
+        | some r, some g => "ok " ++ natHex r.toNat ++ " " ++ toString g
+        | _, _ => "err unmodelled"
+    -- Spec: validity from the hand-written table, result from BitVec semantics, gas from the Yellow Paper tiers
+    let opc := ((frontier ++ constantinople).find? (fun i => i.name == name)).map (·.op)
+    let spec : String :=
+      match opc with
+      | none => "err unmodelled"
+      | some opc =>
+        match specRow (epochLevel e) opc with
+        | none => "err invalid"
+        | some _ =>
+          match specOp name (args.map w), specProgGas (epochLevel e) (specExpByteOf gtn) opc args with
+          | some r, some g => "ok " ++ natHex r.toNat ++ " " ++ toString g
+          | _, _ => "err unmodelled"
+    let tag :=
+      if impl == go then
+        (if name == "SAR" ∧ args.getD 0 0 ≥ 256 ∧ args.getD 1 1 = 0 then "sar-shift-ge-256-of-zero" else "unexpected-modelled-deviation")
+      else "result-or-gas-differs-from-spec"
+    judge impl go (go == spec) tag
+  | _, _, _ => "bad-op\tagree"
+
+/-- `c:<homestead>:<byzantium>:<constantinople>:<hf1>:<hf5>` (`-` = nil) or the name of a built-in config -/
+def parseCfg (s : String) : Option ChainCfg :=
+  match s.splitOn ":" with
+  | ["c", hs, bz, cs, h1, h5] =>
+    let o (t : String) : Option Nat := if t == "-" then none else t.toNat?
+    let hf := (match o h1 with | some h => [(1, h)] | none => []) ++ (match o h5 with | some h => [(5, h)] | none => [])
+    some { name := s, homestead := o hs, eip150 := none, eip155 := none, eip158 := none, byzantium := o bz, constantinople := o cs, hf := hf }
+  | [n] => configs.find? (fun c => c.name == n)
+  | _ => none
+
+def bitmapHex (valid : Nat → Bool) : String :=
+  String.ofList ((List.range 64).map fun i =>
+    let nib := (if valid (4 * i) then 8 else 0) + (if valid (4 * i + 1) then 4 else 0) + (if valid (4 * i + 2) then 2 else 0) + (if valid (4 * i + 3) then 1 else 0)
+    hexDigit nib)
+
+def caseSel (cfgS hS : String) (go : String) : String :=
+  match parseCfg cfgS, hS.toNat? with
+  | some c, some h =>
+    let e := selectEpoch c h
+    let impl := bitmapHex (fun op => (lookup e op).isSome) ++ " " ++ toString (gasTableOf (selectGasTable c h)).expByte
+    let lvl := specLevel c h
+    let spec := bitmapHex (fun op => (specRow lvl op).isSome) ++ " " ++ toString (specExpByte c h)
+    judge impl go (go == spec) (if impl == go then "unexpected-modelled-deviation" else "valid-opcode-set-or-gas-table-differs-from-fork-schedule")
+  | _, _ => "bad-op\tagree"
+
+def caseArity (eS bS : String) (go : String) : String :=
+  match parseEpoch eS, bS.toNat? with
+  | some e, some b =>
+    let pushesKnown := !(go.endsWith " -")
+    let render (pops pushes : Nat) : String := "ok " ++ toString pops ++ " " ++ (if pushesKnown then toString pushes else "-")
+    let impl := match lookup e b with
+      | none => "invalid"
+      | some i => render i.pops i.pushes
+    let spec := match specRow (epochLevel e) b with
+      | none => "invalid"
+      | some r => render r.pops r.pushes
+    judge impl go (go == spec) (if impl == go then "unexpected-modelled-deviation" else "stack-arity-or-validity-differs-from-spec")
+  | _, _ => "bad-op\tagree"
+
+def caseJd (hex : String) (go : String) : String :=
+  match bytesOfHex hex with
+  | none => "bad-op\tagree"
+  | some code =>
+    let arr := code.toArray
+    let bits := codeBitmap arr
+    let impl := String.ofList ((List.range code.length).map fun i =>
+      if arr[i]! == 0x5b && codeSegment bits i then '1' else '0')
+    let isc := EvmSpec.isCode code
+    let spec := String.ofList ((List.range code.length).map fun i =>
+      if code.getD i 0 == 0x5b && isc.getD i false then '1' else '0')
+    let impl := if impl.isEmpty then "-" else impl
+    let spec := if spec.isEmpty then "-" else spec
+    judge impl go (go == spec) (if impl == go then "unexpected-modelled-deviation" else "jumpdest-analysis-differs-from-spec")
+
+def caseJdx (hex destS : String) (go : String) : String :=
+  match bytesOfHex hex, hexNat destS with
+  | some code, some dest =>
+    let impl := if hasJumpdest code.toArray (Int.ofNat dest) then "1" else "0"
+    let spec := if EvmSpec.validJumpdest code dest then "1" else "0"
+    judge impl go (go == spec) (if impl == go then "unexpected-modelled-deviation" else "jumpdest-validity-differs-from-spec")
+  | _, _ => "bad-op\tagree"
+
+/-- real-EVM jump: code' = PUSH32 dest ++ JUMP ++ code -/
+def caseJump (hex destS : String) (go : String) : String :=
+  match bytesOfHex hex, hexNat destS with
+  | some code, some dest =>
+    let pad := (List.replicate 32 (0 : UInt8)) ++ beBytes dest
+    let code' : Bytes := [0x7f] ++ pad.drop (pad.length - 32) ++ [0x56] ++ code
+    let impl := if hasJumpdest code'.toArray (Int.ofNat dest) then "valid" else "invalid"
+    let spec := if EvmSpec.validJumpdest code' dest then "valid" else "invalid"
+    judge impl go (go == spec) (if impl == go then "unexpected-modelled-deviation" else "jump-validity-differs-from-spec")
+  | _, _ => "bad-op\tagree"
+
+def u64 (n : Nat) : UInt64 := UInt64.ofNat n
+
+/-- Spec fee for growing a memory of `memLen` bytes (a multiple of 32, fully paid) to cover `newSize` bytes. -/
+def specMemFee (memLen newSize : Nat) : Nat :=
+  if newSize = 0 then 0
+  else
+    let wNew := EvmSpec.words newSize
+    let wCur := memLen / 32
+    if wNew > wCur then EvmSpec.cmem wNew - EvmSpec.cmem wCur else 0
+
+/-- assumption A1 (notes/C08.md): no frame ever has 2^55 gas, so reporting "gas overflow → out of gas" is what the
+    specification prescribes whenever the specified cost is ≥ 2^55. An `ok g` answer must be exact. -/
+def gasAccept (go : String) (spec : Nat) : Bool :=
+  if go == "overflow" then spec ≥ 2 ^ 55 else go == "ok " ++ toString spec
+
+def wrapRange (n : Nat) : Bool := n > 0x1fffffffe0 ∧ n ≤ 0xffffffffe0
+
+def caseMemgas (a b c : String) (go : String) : String :=
+  match hexNat a, hexNat b, hexNat c with
+  | some memLen, some last, some newSize =>
+    let impl := match memoryGasCost ⟨u64 memLen, u64 last⟩ (u64 newSize) with
+      | none => "overflow"
+      | some (fee, m) => "ok " ++ toString fee.toNat ++ " " ++ toString m.lastGasCost.toNat
+    let fee := specMemFee memLen newSize
+    let specLast := if fee = 0 then last else EvmSpec.cmem (EvmSpec.words newSize)
+    let ok := if go == "overflow" then fee ≥ 2 ^ 55 else go == "ok " ++ toString fee ++ " " ++ toString specLast
+    judge impl go ok (if impl == go then (if wrapRange newSize then "memgas-square-wraps-uint64" else "unexpected-modelled-deviation") else "memory-gas-differs-from-spec")
+  | _, _, _ => "bad-op\tagree"
+
+def renderGas : Option UInt64 → String
+  | none => "overflow"
+  | some g => "ok " ++ toString g.toNat
+
+/-- `g <kind> <param> <memLen> <last> <memorySize> <operand>` -/
+def caseG (kind pS a b c d : String) (go : String) : String :=
+  match pS.toNat?, hexNat a, hexNat b, hexNat c, hexNat d with
+  | some p, some memLen, some last, some msz, some opnd =>
+    let mem : Mem := ⟨u64 memLen, u64 last⟩
+    let m := u64 msz
+    let oi : Int := Int.ofNat opnd
+    let mfee := specMemFee memLen msz
+    let res : Option (Option UInt64 × Nat) :=
+      match kind with
+      | "mload" | "mstore" | "mstore8" => some (gasMemVeryLow mem m, mfee + 3)
+      | "sha3" => some (gasSha3 mem m oi, mfee + EvmSpec.gasSha3 opnd)
+      | "cdcopy" | "codecopy" | "rdcopy" => some (gasCopy gasFastestStep mem m oi, mfee + EvmSpec.gasCopy 3 opnd)
+      | "extcopy" => some (gasCopy (u64 p) mem m oi, mfee + EvmSpec.gasCopy p opnd)
+      | "log" => some (gasLog (u64 p) mem m oi, mfee + EvmSpec.gasLog p opnd)
+      | "create" => some (gasCreate mem m, mfee + 32000)
+      | "return" | "revert" => some (gasReturn mem m, mfee)
+      | "exp" => some (gasExp (u64 p) oi, EvmSpec.gasExp p opnd)
+      | _ => none
+    match res with
+    | none => "bad-op\tagree"
+    | some (ig, spec) =>
+      let impl := renderGas ig
+      judge impl go (gasAccept go spec) (if impl == go then (if wrapRange msz then "memgas-square-wraps-uint64" else "unexpected-modelled-deviation") else "gas-differs-from-spec")
+  | _, _, _, _, _ => "bad-op\tagree"
+
+def caseCallgas (a b c d : String) (go : String) : String :=
+  match hexNat a, hexNat b, hexNat c, hexNat d with
+  | some cbs, some avail, some base, some cost =>
+    let impl := renderGas (callGas (u64 cbs) (u64 avail) (u64 base) (Int.ofNat cost))
+    -- Spec: after EIP-150 the callee gets min(requested, L(available − extra)) (defined when extra ≤ available);
+    -- before EIP-150 the requested amount, which cannot be paid when it does not fit 64 bits.
+    let ok :=
+      if cbs > 0 then
+        (if base ≤ avail then go == "ok " ++ toString (EvmSpec.callGasCap avail base cost) else true)
+      else (if cost < 2 ^ 64 then go == "ok " ++ toString cost else go == "overflow")
+    judge impl go ok (if impl == go then "unexpected-modelled-deviation" else "call-gas-differs-from-spec")
+  | _, _, _, _ => "bad-op\tagree"
+
+def caseWs (a : String) (go : String) : String :=
+  match hexNat a with
+  | some n =>
+    let impl := toString (toWordSize (u64 n)).toNat
+    judge impl go (go == toString (EvmSpec.words n)) (if impl == go then "unexpected-modelled-deviation" else "word-size-differs-from-spec")
+  | none => "bad-op\tagree"
+
+def caseMs (a b : String) (go : String) : String :=
+  match hexNat a, hexNat b with
+  | some off, some len =>
+    let impl := natHex (calcMemSize (Int.ofNat off) (Int.ofNat len)).toNat
+    let spec := natHex (if len = 0 then 0 else off + len)
+    judge impl go (go == spec) (if impl == go then "unexpected-modelled-deviation" else "mem-size-differs-from-spec")
+  | _, _ => "bad-op\tagree"
+
+def handle (l : String) : String :=
+  let (inp, go) := splitCase l
+  match fields inp with
+  | "op" :: e :: gt :: name :: args => caseOp e gt name args go
+  | ["sel", c, h] => caseSel c h go
+  | ["arity", e, b] => caseArity e b go
+  | ["jd", hex] => caseJd hex go
+  | ["jdx", hex, d] => caseJdx hex d go
+  | ["jump", hex, d] => caseJump hex d go
+  | ["memgas", a, b, c] => caseMemgas a b c go
+  | ["g", k, p, a, b, c, d] => caseG k p a b c d go
+  | ["callgas", a, b, c, d] => caseCallgas a b c d go
+  | ["ws", a] => caseWs a go
+  | ["ms", a, b] => caseMs a b go
+  | _ => "bad-op\tagree"
 
 def main : IO Unit := runLines handle
